@@ -200,7 +200,7 @@ type currentToRepoPatternConverter struct {
 
 func (p *currentToRepoPatternConverter) Convert(filename string) string {
 	pattern := p.c.Convert(filename)
-	if st, err := os.Stat(filename); err == nil && st.IsDir() {
+	if st, err := os.Stat(filename); err == nil && st.IsDir() && !strings.HasSuffix(pattern, "/") {
 		pattern += "/"
 	}
 	if strings.HasPrefix(pattern, "./") {
